@@ -25,7 +25,7 @@ def vocabulary(drv, r):
     return names, fgs
 
 
-def make_trees(r, tier, names, fgs):
+def make_trees(r, tier, names, fgs, drv=None):
     trees = []
     n = 70 if tier == "quick" else 700
     for i in range(n):
@@ -59,7 +59,7 @@ def make_trees(r, tier, names, fgs):
         trees.append(("sweep", T.Node(nm, [("b", 1, r.choice([3, 4]), T.Node("Gal"))])))
     # residues drawn from the grammar itself (any modification form), as child and as parent
     import gen as _G
-    for d in [x for x in _G.grammar_sentences(r, 40 if tier == "quick" else 500)[::2] if "(" not in x and " " not in x]:
+    for d in [x for x in _G.grammar_sentences(r, 60 if tier == "quick" else 600, prefer=_G.plausible(drv))[::2] if "(" not in x and " " not in x]:
         c1 = 2 if any(k in d for k in ("Neu", "Kd", "Fru", "Sor", "Tag", "Psi", "Leg", "Pse", "Aci", "Dha", "Ko", "Sia", "Rul", "Xlu", "Xul")) else 1
         T.RES.setdefault(d, (c1, (2, 3, 4, 6), (), "grammar"))
         trees.append(("grammar", T.Node("Glc", [(r.choice("ab"), c1, r.choice([3, 4, 6]), T.Node(d))])))
@@ -98,7 +98,7 @@ def run(tier):
     orc = chem.Oracle()
     r = C.rng(PROP)
     names, fgs = vocabulary(orc.drv, r)
-    trees = make_trees(r, tier, names, fgs)
+    trees = make_trees(r, tier, names, fgs, orc.drv)
     texts = [T.render(t) for _, t in trees]
     residues = sorted(set(n for _, t in trees for n in t.residues()))
     outs = chem.convert_all(texts + residues)
